@@ -163,7 +163,12 @@ def check(ctx):
             and any(f"not in {var}" in norm(i_) for i_ in dr[0].value.generators[0].ifs)
         ctx.check(used, "C07.R5", f"{so.qualname}:filtered", None, f"`dependent_required` does not drop the omittable properties from the required lists (and the entries left empty)", so, dr[0] if dr else so.node, detail=f"req not in {var} in both filters")
 
+    # ---------------- generic conversions applied to user subclasses of collections (shared with C12.R11)
+    from .c12 import subtyping_rule
+    subtyping_rule(ctx, "C07.R6")
+
 def mutants(mb):
+    mb.add_text("substitution-matches-subclass-of-abstract-source", "apischema/utils.py", "            base_origin in ITERABLE_TYPES and super_origin in ITERABLE_TYPES\n", "            super_origin in ITERABLE_TYPES and is_subclass(base_origin, super_origin)\n", "C07.R6", "matching-base")
     mb.add_text("ser-schema-promises-omittable", "apischema/json_schema/schema.py", "        return {p.name for p in properties if not p.required}\n", "        return set()\n", "C07.R5", "not-required")
     mb.add_text("ser-schema-omittable-unused", "apischema/json_schema/schema.py", "            f: [req for req in reqs if req in aliases and req not in omittable]\n", "            f: [req for req in reqs if req in aliases]\n", "C07.R5", "filtered")
     mb.add_text("typed-dict-required-ignores-omission", "apischema/json_schema/schema.py", "                (field.required or not is_typed_dict(get_origin_or_type(tp)))\n                and not field.skippable(\n                    settings.serialization.exclude_defaults,\n                    settings.serialization.exclude_none,\n                )\n", "                field.required\n                if is_typed_dict(get_origin_or_type(tp))\n                else not field.skippable(\n                    settings.serialization.exclude_defaults,\n                    settings.serialization.exclude_none,\n                )\n", "C07.R2", "field-required")
